@@ -20,6 +20,7 @@ PROP = 'C15'
 EPS  = 0.45          # poll period 0.1s + slack (virtual seconds)
 HOLD = 0.30          # an awaited state held this long must be noticed
 GIVE_UP = 60.0
+FRESH = 0.05         # every wait call reads the states it returns on return
 
 
 def gen(rng, tier):
@@ -68,9 +69,19 @@ def gen(rng, tier):
         else:
             state = sorted(rng.sample(states[2:] + FINAL, rng.randint(2, 3)))
         timeout = rng.choice([None, None, 0.5, 2.0, 30.0])
+        at = round(rng.uniform(0.0, 4.0), 2)
+        if rng.random() < 0.25:
+            # a timeout which expires right after one of the awaited entities
+            # moves (the move falls into the call's last poll period)
+            kind = 'task' if api[0] == 't' else 'pilot'
+            moves = [t for e in ents if e['kind'] == kind and
+                     (targets is None or e['idx'] in targets)
+                     for t, _ in e['steps'] if t > at + 0.2]
+            if moves:
+                timeout = round(rng.choice(moves) - at +
+                                rng.choice([0.01, 0.02, 0.05, 0.08]), 3)
         waits.append({'api': api, 'targets': targets, 'state': state,
-                      'timeout': timeout,
-                      'at': round(rng.uniform(0.0, 4.0), 2)})
+                      'timeout': timeout, 'at': at})
     return {'nt': nt, 'np': np_, 'ents': ents, 'waits': waits,
             'delay_max': rng.choice([0.0, 0.0, 0.05])}
 
@@ -253,14 +264,14 @@ def run(seed, scenario, trace=None, tier='quick'):
                 if not early_ok or t_ret < min(early_ok) - 1e-9:
                     if ents:
                         sim.violation(PROP, 'early_return', site, det)
-                # returned value = actual states (as of the last poll: the
-                # entity may move on between the call's last look and return)
+                # returned value = actual states (all four calls read the
+                # state(s) they return after their last poll, on return)
                 def held(uid):
                     h = st['hist'].get(uid, [])
                     out = set()
                     for i, (ts, s_) in enumerate(h):
                         nxt = h[i + 1][0] if i + 1 < len(h) else float('inf')
-                        if ts <= t_ret and nxt >= t_ret - 0.15:
+                        if ts <= t_ret and nxt >= t_ret - FRESH:
                             out.add(s_)
                     return out
                 ret = rec['ret']
